@@ -4,10 +4,10 @@
 # On success copies it to /verif/seeded/<ID>-<v>/ with meta.json.
 set -u
 ID=$1; V=$2
-PID=${ID#[SVWXYZ]}   # property id (later agent directories are named S<property> / V<property>)
+PID=${ID#[SVWXYZA]}   # property id (later agent directories are named S<property> / V<property>)
 SRC=/tmp/agents/$ID-out/$V
 WT=/tmp/confirm-$ID-$V
-TGT=/tmp/confirm-target   # shared target dir to save build time (sequential use)
+TGT=${CONFIRM_TGT:-/tmp/confirm-target}   # target dir shared by the sequential runs of one lane
 rm -rf $WT; git -C /repo worktree add -q --detach $WT HEAD || exit 9
 cleanup() { git -C /repo worktree remove --force $WT 2>/dev/null; }
 trap cleanup EXIT
